@@ -314,6 +314,11 @@ func (in *Interp) reinterpret(fr *frame, v Value, t types.Type) Value {
 	if t == nil {
 		return v
 	}
+	if isReflectValueType(t) {
+		if s, ok := v.(*Struct); ok && len(s.f) == 3 {
+			return in.rvFromWords(fr, s)
+		}
+	}
 	switch t.Underlying().(type) {
 	case *types.Slice:
 		if s, ok := v.(*Struct); ok && len(s.f) == 3 {
@@ -1010,9 +1015,11 @@ func (in *Interp) binop(fr *frame, op token.Token, t types.Type, xv, yv Value) V
 			return in.symStrBinop(fr, op, ys, x)
 		}
 		if ys, ok := yv.(*SymStr); ok && (op == token.EQL || op == token.NEQ) {
-			if ys == x {
-				return Bool(op == token.EQL)
+			r := in.equal(fr, x, ys)
+			if op == token.NEQ {
+				r = BNot(r)
 			}
+			return r
 		}
 	case FloatV:
 		y, ok := yv.(FloatV)
@@ -1087,7 +1094,10 @@ func (in *Interp) equal(fr *frame, a, b Value) *Term {
 			return in.symStrEq(fr, x, y)
 		}
 		if y, ok := b.(*SymStr); ok {
-			return Bool(x == y)
+			if x == y {
+				return TrueT
+			}
+			return in.seqEqSeq(fr, x, y)
 		}
 	case FloatV:
 		if y, ok := b.(FloatV); ok {
